@@ -135,35 +135,48 @@ Theorem C06_parafac2_error_identity : forall (F : Type) (Op : fops F),
 Proof. intros F Op Rth I K Rk J X P A Bm C. split; [apply p2_err2_fast_correct | apply p2_err2_fast_proj_correct]; exact Rth. Qed.
 Print Assumptions C06_parafac2_error_identity.
 
-(* PARAFAC2 loop with Bro's line search, the code as it is (recompute = false): a rejected jump leaves the previous
-   iterate's error as the last reported value although the freshly updated iterate is returned *)
-Theorem C06_parafac2_skeleton_refuted :
+(* PARAFAC2 loop with Bro's line search (the code since fix 0080ddd): for EVERY oracle (updates, jumps, accept / reject
+   decisions, stops, any normalisation that keeps the error), with or without line search / normalisation and for every number
+   of iterations >= 1, the last reported value is the error of the returned iterate *)
+Theorem C06_parafac2_skeleton_last_report : forall (St E : Type) (err : St -> E) (Or : p2oracle St) (ls normalize : bool),
+  (forall st, err (p2_norm Or st) = err st) ->
+  forall (n : nat) (init : St), 0 < n ->
+  p2_last_ok err (p2_loop err Or ls normalize false n 0 init []).
+Proof. exact @p2_skeleton_sound. Qed.
+Print Assumptions C06_parafac2_skeleton_last_report.
+(* ... and one value per executed iteration is recorded, line-search iterations included *)
+Theorem C06_parafac2_skeleton_one_value_per_iteration : forall (St E : Type) (err : St -> E) (Or : p2oracle St) (ls normalize : bool),
+  (forall it, p2_stop Or it = false) -> forall (n it : nat) (cur : St) (errs : list E),
+  length (snd (p2_loop err Or ls normalize false n it cur errs)) = length errs + n.
+Proof. exact @p2_loop_length. Qed.
+Print Assumptions C06_parafac2_skeleton_one_value_per_iteration.
+(* the behaviour before the fix (legacy = true) is NOT sound: a rejected jump leaves the previous iterate's error *)
+Theorem C06_parafac2_skeleton_legacy_refuted :
   exists (Or : p2oracle nat) (n : nat) (init : nat),
     (forall st, p2_norm Or st = st) /\ (0 < n) /\
-    ~ p2_last_ok (fun st : nat => st) (p2_loop (fun st => st) Or true false false n 0 init []).
-Proof. exact p2_skeleton_refuted. Qed.
-Print Assumptions C06_parafac2_skeleton_refuted.
-(* what does hold for every oracle and every number of iterations: without line search, or when every jump is accepted,
-   or with the candidate repair (error recomputed after a rejected jump), the last reported value belongs to the returned iterate *)
-Theorem C06_parafac2_skeleton_partial : forall (St E : Type) (err : St -> E) (Or : p2oracle St) (ls normalize recompute : bool),
-  (forall st, err (p2_norm Or st) = err st) ->
-  ls = false \/ recompute = true \/ (forall it, p2_accept Or it = true) ->
-  forall (n : nat) (init : St), 0 < n ->
-  p2_last_ok err (p2_loop err Or ls normalize recompute n 0 init []).
-Proof. exact @p2_skeleton_partial. Qed.
-Print Assumptions C06_parafac2_skeleton_partial.
+    ~ p2_last_ok (fun st : nat => st) (p2_loop (fun st => st) Or true false true n 0 init []).
+Proof. exact p2_skeleton_legacy_refuted. Qed.
+Print Assumptions C06_parafac2_skeleton_legacy_refuted.
 
-(* HOOI under a mask, the code as it is: the tensor is imputed at the start of the iteration but norm_tensor is the norm
-   of the original tensor; the reported quantity is neither the residual w.r.t. the imputed tensor the core was computed
-   from nor the residual w.r.t. the original tensor.  (With the norm of the imputed tensor it is the former:
-   C06_hooi_error_identity applied to the imputed tensor.) *)
-Theorem C06_hooi_masked_stale_norm_refuted :
+(* the explicit residual under a 0/1 mask (error_calc; tucker / partial_tucker since fix 587bdbd): || X' - L ||^2 with
+   X' = X*m + L*(1-m) is the squared residual on the observed entries; every order / shape, every 0/1-valued mask *)
+Theorem C06_masked_residual_is_observed_residual : forall (F : Type) (Op : fops F),
+  ring_theory (f0 Op) (f1 Op) (fadd Op) (fmul Op) (fsub Op) (fopp Op) (@eq F) ->
+  forall (X m : tensor F) (L : list nat -> F),
+  (forall idx, inb (shape X) idx -> fmul Op (tfun Op m idx) (tfun Op m idx) = tfun Op m idx) ->
+  fst (err_explicit Op X L None (Some m)) =
+  Fsum_idx Op (shape X) (fun idx => fmul Op (tfun Op m idx) (sq Op (fsub Op (tfun Op X idx) (L idx)))).
+Proof. exact @masked_residual_is_observed_residual. Qed.
+Print Assumptions C06_masked_residual_is_observed_residual.
+(* the formula masked HOOI used BEFORE fix 587bdbd (norm of the original tensor against the core of the re-imputed one) is
+   neither the residual w.r.t. the imputed tensor the core was computed from nor the residual w.r.t. the original tensor *)
+Theorem C06_hooi_masked_legacy_formula_refuted :
   exists (s rs : list nat) (X X' G : list nat -> Z) (us : list (nat -> nat -> Z)),
     orthonormal Zops s rs us /\ (forall j, inb rs j -> G j = project Zops s X' us j) /\
     hooi_err2 Zops s rs X G <> dist2 Zops s X' (tucker_entry Zops rs G us) /\
     hooi_err2 Zops s rs X G <> dist2 Zops s X (tucker_entry Zops rs G us).
-Proof. exact hooi_masked_stale_norm_refuted. Qed.
-Print Assumptions C06_hooi_masked_stale_norm_refuted.
+Proof. exact hooi_masked_legacy_formula_refuted. Qed.
+Print Assumptions C06_hooi_masked_legacy_formula_refuted.
 
 (* tensor-ring ALS: the quantity tensor_ring_als reports, the residual || design_mat . sol - X_(d)^T || of the LAST least-squares
    sub-problem of the sweep, is the residual of the tensor ring whose core d was rebuilt from sol (cyclicity of the trace):
@@ -185,13 +198,26 @@ Theorem C06_tr_als_residual_is_ring_error : forall (F : Type) (Op : fops F),
 Proof. exact @ls_residual_is_tr_error. Qed.
 Print Assumptions C06_tr_als_residual_is_ring_error.
 
-(* parafac's callback BEFORE the loop under mask + sparsity, the code as it is: the error it passes is computed with the sparse
-   component of the imputed residual, the sparse component it passes is computed from the un-imputed tensor; the two differ *)
-Theorem C06_callback0_mask_sparse_refuted :
+(* parafac's callback BEFORE the loop under mask + sparsity: since fix 835cf01 the pair handed over is the one the error was
+   computed for; with the sparse component of the UN-imputed tensor (the behaviour before the fix) the two differ *)
+Theorem C06_callback0_consistent : forall (F : Type) (Op : fops F) (X L m : tensor F) (card : nat),
+  cb0_reported Op X L m card = cb0_error_of_handed Op false X L m card.
+Proof. exact @cb0_consistent. Qed.
+Print Assumptions C06_callback0_consistent.
+Theorem C06_callback0_legacy_refuted :
   exists (X L m : tensor Z) (card : nat),
-    fst (cb0_reported Zops X L m card) <> fst (cb0_error_of_handed Zops X L m card).
-Proof. exact cb0_mask_sparse_refuted. Qed.
-Print Assumptions C06_callback0_mask_sparse_refuted.
+    fst (cb0_reported Zops X L m card) <> fst (cb0_error_of_handed Zops true X L m card).
+Proof. exact cb0_mask_sparse_legacy_refuted. Qed.
+Print Assumptions C06_callback0_legacy_refuted.
+
+(* pairing the remembered MTTKRP with a factor other than the one of the last updated mode (the HALS defect repaired by b2515f1)
+   is not sound: the hypothesis pair_with = last updated mode of C06_skeleton_reports_belong_to_their_state is needed *)
+Theorem C06_skeleton_wrong_pairing_refuted :
+  exists (Orc : oracle nat) (C : config) (n : nat) (init : blocks nat),
+    pair_with C <> last (modes C) 0 /\ norm_before_error C = false /\ report_linesearch C = true /\
+    ~ last_report_ok nat nat nat toy_repr (fun x => x) (run toy_fast toy_explicit Orc C n init).
+Proof. exact skeleton_wrong_pairing_refuted. Qed.
+Print Assumptions C06_skeleton_wrong_pairing_refuted.
 
 (* ---- non-vacuity: the hypotheses are satisfiable and the model computes *)
 Example C06_ring_Z : ring_theory (f0 Zops) (f1 Zops) (fadd Zops) (fmul Zops) (fsub Zops) (fopp Zops) (@eq Z).
@@ -251,3 +277,20 @@ Example C06_tr_nonvacuous :
   endbond 2 (map (fun c => (fst c, fun a b => snd c a 0 b)) (map (core_of Zops) cores)) = 2 /\
   let '(ls, t, nx) := tr_all Zops X cores in ls = t /\ nx = 204%Z.
 Proof. vm_compute. repeat split. Qed.
+
+(* a 0/1 mask satisfies the hypothesis of C06_masked_residual_is_observed_residual; the masked residual counts the observed entries only *)
+Example C06_masked_nonvacuous :
+  let X := mk [4] [1;2;3;4]%Z in let m := mk [4] [1;0;1;1]%Z in let L := tfun Zops (mk [4] [0;5;1;1]%Z) in
+  (forall idx, inb (shape X) idx -> fmul Zops (tfun Zops m idx) (tfun Zops m idx) = tfun Zops m idx) /\
+  fst (err_explicit Zops X L None (Some m)) = 14%Z.
+Proof.
+  cbv zeta. split; [|vm_compute; reflexivity].
+  intros [|i [|j idx]] H; simpl in H; try tauto. destruct H as [H _].
+  do 4 (destruct i as [|i]; [vm_compute; reflexivity|]). lia.
+Qed.
+(* the PARAFAC2 skeleton on a toy oracle that rejects every jump: 7 iterations, 7 values, the last one belongs to the returned
+   iterate; with the behaviour before the fix: 6 values, the last one belongs to the iterate of iteration 6 *)
+Example C06_parafac2_skeleton_nonvacuous :
+  p2_loop (fun st : nat => st) toy_p2 true false false 7 0 0 [] = (7, [1; 2; 3; 4; 5; 6; 7]) /\
+  p2_loop (fun st : nat => st) toy_p2 true false true 7 0 0 [] = (7, [1; 2; 3; 4; 5; 6]).
+Proof. exact p2_skeleton_nonvacuous. Qed.
